@@ -9,6 +9,7 @@ structure XState where
   cm : Comps
   x : SysX
   note : List String      -- replay problems (oracle events that do not fit the model's control flow)
+  hidden : Hidden := fun _ => false   -- non-atomic layer (Model/CtrlN.lean)
 
 def digestSch (_job : Job) (cl : Cluster) (cm : Comps) (sc : Sch) : Json :=
   let comps := List.range cm.n
@@ -95,7 +96,7 @@ def xStep (d : XState) (j : Json) : XState × Json :=
     let cl := pCluster j
     let comp := (getArr j "comp").map asNat
     let cm : Comps := { compOf := fun t => comp.getD t 0, n := getNat j "ncomp" }
-    let d' : XState := { job := job, cl := cl, cm := cm, x := SysX.init job cl cm, note := [] }
+    let d' : XState := { job := job, cl := cl, cm := cm, x := SysX.init job cl cm, note := [], hidden := fun _ => false }
     (d', fullX d' [])
   | "round" =>
     let d := { d with note := [] }
@@ -119,25 +120,39 @@ def xStep (d : XState) (j : Json) : XState × Json :=
       let d := stepOr d (.base .endFlush) "endFlush not enabled"
       (d, fullX d [("enabled", toJson true), ("cmds", Json.arr ((d.x.sys.env.log.drop before).map jCmd).toArray)])
   | "env" =>
-    let es : Option EnvStep :=
+    let xN : SysN := { sys := d.x.sys, hidden := d.hidden }
+    match j.getObjVal? "yield" with
+    | .ok r =>
+      (match asArr r with
+       | [t, k] =>
+         if nextHidden d.job d.hidden (asNat t) != some (asNat k) then (d, Json.mkObj [("enabled", toJson false)]) else
+         ({ d with hidden := upd d.hidden ⟨asNat t, asNat k⟩ false }, Json.mkObj [("enabled", toJson true)])
+       | _ => (d, Json.str "bad-op"))
+    | .error _ =>
+    -- the guards of the non-atomic layer (`stepN`) around the extended system's base step
+    let es : Option (EnvStep × Bool × Hidden) :=
       match j.getObjVal? "run" with
-      | .ok r => (match asArr r with | [h, i, t] => some (.run ⟨asNat h, asNat i⟩ (asNat t)) | _ => none)
+      | .ok r => (match asArr r with
+          | [h, i, t] => some (.run ⟨asNat h, asNat i⟩ (asNat t), !(d.job.inputs (asNat t)).any d.hidden, hideOutputs d.job d.hidden (asNat t))
+          | _ => none)
       | .error _ =>
         let want : Option IO := match getArr j "io" with
           | [Json.str "transmit", t, k, s, g] => some (.transmit ⟨asNat t, asNat k⟩ (asNat s) (asNat g))
           | [Json.str "fetch", t, k, s] => some (.fetch ⟨asNat t, asNat k⟩ (asNat s))
           | _ => none
-        want.map (fun o => .io (d.x.sys.env.outstanding.findIdx (· == o)))
+        want.map (fun o => let i := d.x.sys.env.outstanding.findIdx (· == o); (.io i, baseAllowed xN (.env (.io i)), d.hidden))
     match es with
     | none => (d, Json.str "bad-op")
-    | some es =>
+    | some (es, allowed, hid') =>
+      if !allowed then (d, Json.mkObj [("enabled", toJson false)]) else
       match stepX semStr d.job d.cl d.cm d.x (.base (.env es)) with
       | none => (d, Json.mkObj [("enabled", toJson false)])
-      | some x' => let d' := { d with x := x' }; (d', Json.mkObj [("enabled", toJson true), ("env", digestEnv d.job d.cl x'.sys.env)])
+      | some x' => let d' := { d with x := x', hidden := hid' }; (d', Json.mkObj [("enabled", toJson true), ("env", digestEnv d.job d.cl x'.sys.env)])
   | "deliver" =>
     let d := { d with note := [] }
     let evs := (getArr j "events").filterMap pEvent
     if evs.length != (getArr j "events").length then (d, Json.str "bad-event") else
+    if !baseAllowed { sys := d.x.sys, hidden := d.hidden } (.recv evs) then (d, Json.mkObj [("enabled", toJson false)]) else
     match stepX semStr d.job d.cl d.cm d.x (.base (.recv evs)) with
     | none => (d, Json.mkObj [("enabled", toJson false)])
     | some x1 =>
